@@ -264,8 +264,10 @@ func (o *snapshotter) Prepare(ctx context.Context, key, parent string, opts ...s
 				WithError(err).Warn("failed to prepare remote snapshot")
 		} else {
 			base.Labels[remoteLabel] = remoteLabelVal // Mark this snapshot as remote
+			verifCrashPoint("prepare.mounted")
 			err := o.commit(ctx, true, target, key, append(opts, snapshots.WithLabels(base.Labels))...)
 			if err == nil || errdefs.IsAlreadyExists(err) {
+				verifCrashPoint("prepare.committed")
 				// count also AlreadyExists as "success"
 				log.G(lCtx).WithField(remoteSnapshotLogKey, prepareSucceeded).Debug("prepared remote snapshot")
 				return nil, fmt.Errorf("target snapshot %q: %w", target, errdefs.ErrAlreadyExists)
@@ -342,6 +344,7 @@ func (o *snapshotter) commit(ctx context.Context, isRemote bool, name, key strin
 		return fmt.Errorf("failed to commit snapshot: %w", err)
 	}
 
+	verifCrashPoint("commit.meta")
 	rollback = false
 	return t.Commit()
 }
@@ -366,6 +369,7 @@ func (o *snapshotter) Remove(ctx context.Context, key string) (err error) {
 	if err != nil {
 		return fmt.Errorf("failed to remove: %w", err)
 	}
+	verifCrashPoint("remove.meta")
 
 	if !o.asyncRemove {
 		var removals []string
@@ -380,6 +384,7 @@ func (o *snapshotter) Remove(ctx context.Context, key string) (err error) {
 		// key no longer available.
 		defer func() {
 			if err == nil {
+				verifCrashPoint("remove.committed")
 				for _, dir := range removals {
 					if err := o.cleanupSnapshotDirectory(ctx, dir); err != nil {
 						log.G(ctx).WithError(err).WithField("path", dir).Warn("failed to remove directory")
@@ -417,6 +422,7 @@ func (o *snapshotter) cleanup(ctx context.Context, cleanupCommitted bool) error 
 
 	log.G(ctx).Debugf("cleanup: dirs=%v", cleanup)
 	for _, dir := range cleanup {
+		verifCrashPoint("cleanup.iter")
 		if err := o.cleanupSnapshotDirectory(ctx, dir); err != nil {
 			log.G(ctx).WithError(err).WithField("path", dir).Warn("failed to remove directory")
 		}
@@ -500,9 +506,11 @@ func (o *snapshotter) cleanupSnapshotDirectory(ctx context.Context, dir string) 
 	if err := o.fs.Unmount(ctx, mp); err != nil {
 		log.G(ctx).WithError(err).WithField("dir", mp).Debug("failed to unmount")
 	}
+	verifCrashPoint("cleanupdir.unmounted")
 	if err := os.RemoveAll(dir); err != nil {
 		return fmt.Errorf("failed to remove directory %q: %w", dir, err)
 	}
+	verifCrashPoint("cleanupdir.removed")
 	return nil
 }
 
@@ -537,6 +545,7 @@ func (o *snapshotter) createSnapshot(ctx context.Context, kind snapshots.Kind, k
 		}
 		return storage.Snapshot{}, fmt.Errorf("failed to create prepare snapshot dir: %w", err)
 	}
+	verifCrashPoint("create.tempdir")
 	rollback := true
 	defer func() {
 		if rollback {
@@ -550,6 +559,7 @@ func (o *snapshotter) createSnapshot(ctx context.Context, kind snapshots.Kind, k
 	if err != nil {
 		return storage.Snapshot{}, fmt.Errorf("failed to create snapshot: %w", err)
 	}
+	verifCrashPoint("create.meta")
 
 	if len(s.ParentIDs) > 0 {
 		st, err := os.Stat(o.upperPath(s.ParentIDs[0]))
@@ -572,11 +582,13 @@ func (o *snapshotter) createSnapshot(ctx context.Context, kind snapshots.Kind, k
 		return storage.Snapshot{}, fmt.Errorf("failed to rename: %w", err)
 	}
 	td = ""
+	verifCrashPoint("create.renamed")
 
 	rollback = false
 	if err = t.Commit(); err != nil {
 		return storage.Snapshot{}, fmt.Errorf("commit failed: %w", err)
 	}
+	verifCrashPoint("create.committed")
 
 	return s, nil
 }
